@@ -26,12 +26,14 @@ BATCH = 400
 ENUM_BATCH = 60
 ENUM_SHARE = 0.4
 ENUM_RULE = (
-    "695 fixed cases run before the seeded search: {301,302,303,307,308} x {GET,HEAD,DELETE; POST,PUT,PATCH x body "
+    "735 fixed cases run before the seeded search: {301,302,303,307,308} x {GET,HEAD,DELETE; POST,PUT,PATCH x body "
     "none/bytes/form/one-shot generator/file/unseekable file} x redirect target {same origin, other port, other "
     "scheme, subdomain, other host} with every caller secret and a four-cookie jar; other home origins; URL "
     "credentials and credentials in the Location; A->X->A and A->X->X->A for every X and status; chains of "
     "{0,1,m-1,m,m+1} redirects against max_redirects m in {1,2,3,10}; every non-HTTP / invalid / missing Location "
-    "spelling.  Not exhaustive of the property's input space."
+    "spelling; one redirect A->X with URL credentials / Location credentials / session default headers / request "
+    "headers followed by later calls on the same session to every origin of the run.  Not exhaustive of the "
+    "property's input space."
 )
 TECHNIQUE = ("deterministic simulation: real ClientSession on a virtual-time loop against scripted in-memory origin "
              "servers; per-request oracle from an executable statement of the documented redirect rules; seeded "
@@ -40,7 +42,8 @@ LEVEL_TEXT = (
     "Systematic enumeration of every single-hop case (5 statuses x methods x body kinds x 5 target-origin relations, "
     "all caller secrets set) and of the A->X->A and at-the-limit shapes, then seeded exploration of redirect chains "
     "(0-12 hops over 2-4 origins, Location forms, credentials, cookie jar contents, Set-Cookie along the chain) "
-    "against the real client; every request an origin receives is judged against ref/redirect.py and the jar's own "
+    "and, in a sampled share, later calls on the same session against the real client; every request an origin "
+    "receives is judged against ref/redirect.py and the jar's own "
     "selection for that hop.  Sampling beyond the enumerated cases, not proof."
 )
 LEVEL_NOTE = (
@@ -56,7 +59,11 @@ RULE = (
     "URL credentials x params) x chain script (per hop: origin, status, Location form, Set-Cookie, response framing) "
     "x jar preload x connector limits x max_redirects, under seeded segmentation and latency; every third scenario "
     "belongs to the fault batch (an origin resets/closes on a request, or the caller is cancelled before loop step "
-    "k).  Non-trivial: at least one redirect was followed, the call carried a caller secret or jar cookie, and an "
+    "k).  In 12 % of the scenarios the session is used again afterwards: 1-3 later GETs to origins of the run, "
+    "without / with empty / with a headers= argument, optionally with URL credentials and one redirect of their "
+    "own (half of these scenarios give the caller's headers as session defaults); every request of a later call "
+    "is judged as a chain of its own and against everything supplied for another origin in an earlier call.  "
+    "Non-trivial: at least one redirect was followed, the call carried a caller secret or jar cookie, and an "
     "origin change, a method/body transformation of a body-bearing request, a refusal or the redirect limit "
     "occurred.  Distinct = interleaving signature."
 )
@@ -102,6 +109,7 @@ T_PW = "SECRETPW0"
 TOKEN_KIND = {T_AUTH: "authorization", T_HC[0]: "cookie_header", T_HC[1]: "cookie_header", T_PA: "proxy_authorization",
               T_RC: "request_cookies", T_PW: "url_credentials"}
 CALLER_COOKIE_NAMES = ("hc1", "hc2", "rc1")
+FOLLOWUP_SHARE = 0.12
 
 
 def _origin_t(name):
@@ -316,7 +324,53 @@ def gen(rng, tier, index):
         if r >= 0.5:
             scn["faults"].append({"kind": "cancel", "step": rng.choice([rng.randrange(1, 60), rng.randrange(1, 400),
                                                                         rng.randrange(1, 1200)])})
+    # drawn last, so that every other part of the scenario is what it was without this feature:
+    # the session is used again after the call (a history of calls on one ClientSession)
+    if rng.random() < FOLLOWUP_SHARE:
+        _mk_followups(rng, scn)
     return scn
+
+
+def _fu_cred(i):
+    return f"fu{i:02d}", f"FUPW{i:02d}"
+
+
+def _fu_loc_cred(i):
+    return f"FLU{i:02d}", f"FLPW{i:02d}"
+
+
+def _fu_loc(fu, i):
+    """Location sent by the first response of later call i, or None."""
+    red = fu.get("red")
+    if not red:
+        return None
+    if red["loc"] == "rel":
+        return f"/g{i}"
+    s, _, _, _ = ORIGINS[red["to"]]
+    ui = "%s:%s@" % _fu_loc_cred(i) if red["loc"] == "userinfo" else ""
+    return f"{s}://{ui}{_hostport(red['to'])}/g{i}"
+
+
+def _mk_followups(rng, scn):
+    """1-3 later calls on the same session: each a GET to one of the run's origins, with or without a
+    headers= argument, optionally with credentials in its URL and one redirect of its own."""
+    init = scn["init"]
+    pool = scn["origins"]
+    if rng.random() < 0.5:
+        init["via_session"] = True
+    # with nothing to put into headers= the argument may also be left out altogether
+    init["omit_headers"] = rng.random() < 0.5
+    fus = []
+    for i in range(rng.choice([1, 1, 2, 2, 3])):
+        o = rng.choice(pool)
+        fu = {"o": o, "hdr": rng.choice(["none", "none", "none", "none", "none", "empty", "empty", "extra", "extra", "extra"]),
+              "url_creds": rng.random() < 0.25 and not (init["via_session"] and init["auth_header"]), "red": None}
+        if rng.random() < 0.45:
+            to = rng.choice(pool)
+            kinds = ["abs", "abs", "userinfo"] + (["rel", "rel"] if to == o else [])
+            fu["red"] = {"status": rng.choice(STATUSES), "to": to, "loc": rng.choice(kinds)}
+        fus.append(fu)
+    scn["followups"] = fus
 
 
 def _simple(home, target, status, method, body_kind, m=10, loc_kind="abs", secrets=True, jar=True):
@@ -418,9 +472,42 @@ def enumerate_cases(tier, seed):
             s["hops"] = [dict(s["hops"][0], loc=kind, loc_str=bad)]
             s["origins"] = ["A", "B"]
             yield s
+    # 7. the session is used again: one redirect A -> X, then a later call to every origin of the run
+    for x in ("A", "AP", "AS", "SUB", "B"):
+        for status in (302, 307):
+            for mode in ("url_creds", "location_creds", "session_defaults", "request_headers"):
+                s = _simple("A", x, status, "GET", "none", loc_kind="userinfo" if mode == "location_creds" else "abs",
+                            secrets=mode in ("session_defaults", "request_headers"))
+                s["init"]["url_creds"] = mode == "url_creds"
+                s["init"]["via_session"] = mode == "session_defaults"
+                s["init"]["omit_headers"] = True
+                s["origins"] = list(dict.fromkeys(["A", x, "B"]))
+                s["followups"] = [{"o": o, "hdr": "none" if j % 2 == 0 else "extra", "url_creds": False, "red": None}
+                                  for j, o in enumerate(s["origins"])]
+                if mode == "session_defaults":
+                    # a later call that itself leaves its origin
+                    s["followups"].append({"o": "A", "hdr": "none", "url_creds": False,
+                                           "red": {"status": status, "to": "B", "loc": "abs"}})
+                    s["followups"].append({"o": "A", "hdr": "none", "url_creds": False, "red": None})
+                yield s
 
 
 def shrink(scn):
+    fus = scn.get("followups") or []
+    if fus:
+        yield {k: v for k, v in scn.items() if k != "followups"}
+        if len(fus) > 1:
+            for i in range(len(fus)):  # later calls are numbered by position, the rest moves up
+                yield dict(scn, followups=fus[:i] + fus[i + 1:])
+        for i, fu in enumerate(fus):
+            for small in (dict(fu, red=None) if fu.get("red") else None,
+                          dict(fu, url_creds=False) if fu.get("url_creds") else None,
+                          dict(fu, hdr="none") if fu.get("hdr") != "none" else None,
+                          dict(fu, o=scn["home"]) if fu["o"] != scn["home"] else None):
+                if small is not None:
+                    yield dict(scn, followups=fus[:i] + [small] + fus[i + 1:])
+        if scn["init"].get("omit_headers"):
+            yield dict(scn, init=dict(scn["init"], omit_headers=False))
     if scn["faults"]:
         for i in range(len(scn["faults"])):
             yield dict(scn, faults=scn["faults"][:i] + scn["faults"][i + 1:])
@@ -468,6 +555,7 @@ def shrink(scn):
 # --------------------------------------------------------------------------- origins
 
 _HOP_RE = re.compile(r"^/h(\d+)(\?.*)?$")
+_FU_RE = re.compile(r"^/([fg])(\d+)$")
 
 
 class Origins:
@@ -479,6 +567,8 @@ class Origins:
         self.hops = scn["hops"]
         self.faults = {f["hop"]: f["kind"] for f in scn["faults"] if f["kind"] != "cancel"}
         self.log = []  # request records in arrival order
+        self.fus = scn.get("followups") or []
+        self.flog = []  # requests of the later calls on the same session, in arrival order
         self.attempts = {}
         self.jar_probe = jar_probe
         self.servers = {}
@@ -490,6 +580,9 @@ class Origins:
 
     def handle(self, name, conn, req):
         target = req["target"].decode("latin-1")
+        mf = _FU_RE.match(target)
+        if mf and int(mf.group(2)) < len(self.fus):
+            return self.handle_later(name, conn, req, target, int(mf.group(2)), 0 if mf.group(1) == "f" else 1)
         m = _HOP_RE.match(target)
         hop = int(m.group(1)) if m else None
         att = self.attempts.get(hop, 0)
@@ -522,6 +615,22 @@ class Origins:
         conn.send(data)
         if close:
             conn.transport.close()
+
+    def handle_later(self, name, conn, req, target, i, pos):
+        """A request of later call i: /f<i> is its first request, /g<i> the one after its own redirect."""
+        fu = self.fus[i]
+        self.flog.append({
+            "call": i, "pos": pos, "origin": name, "method": req["method"].decode("latin-1"), "target": target,
+            "headers": [(a.decode("latin-1"), b.decode("latin-1")) for a, b in req["headers"]],
+            "body": req["body"], "jar": self.jar_probe(name, target),
+        })
+        self.loop.note("origin_rx", f"{name}:{req['method'].decode('latin-1')}:{target}")
+        loc = _fu_loc(fu, i) if pos == 0 else None
+        if loc is not None:
+            st = fu["red"]["status"]
+            conn.send(f"HTTP/1.1 {st} S{st}\r\nX-Hop: f{i}\r\nLocation: {loc}\r\nContent-Length: 0\r\n\r\n".encode("latin-1"))
+        else:
+            conn.send(f"HTTP/1.1 200 OK\r\nX-Hop: {'fg'[pos]}{i}\r\nContent-Length: 2\r\n\r\nok".encode("latin-1"))
 
     def response(self, k, method):
         h = self.hops[k]
@@ -770,7 +879,7 @@ def run(scn, ch, log=False):
         url = f"{s0}://{'cu:' + T_PW + '@' if init['url_creds'] else ''}{hp0}/h0"
         via_session = bool(init.get("via_session"))
         kw = {"allow_redirects": init["allow_redirects"]}
-        if not via_session:
+        if not via_session and (headers or not init.get("omit_headers")):
             kw["headers"] = headers
         if data is not None:
             kw["data"] = data
@@ -829,6 +938,47 @@ def run(scn, ch, log=False):
         acquired = len(st["conn"]._acquired) if st["conn"] is not None else 0
         if task.done() and not task.cancelled() and task.exception() is not None:
             raise task.exception()  # harness error
+
+        # ---- later calls on the same session (each a short chain of its own)
+        fus = scn.get("followups") or []
+        fu_res = []
+        if fus and not blocked and not acquired and st["session"] is not None:
+            for i, fu in enumerate(fus):
+                fs, _, _, _ = ORIGINS[fu["o"]]
+                furl = f"{fs}://{'%s:%s@' % _fu_cred(i) if fu['url_creds'] else ''}{_hostport(fu['o'])}/f{i}"
+                fkw = {}
+                if fu["hdr"] == "empty":
+                    fkw["headers"] = {}
+                elif fu["hdr"] == "extra":
+                    fkw["headers"] = {"X-Fu": str(i)}
+                fr = {"exc": None, "final": None, "history": None, "blocked": False}
+                fu_res.append(fr)
+
+                async def later(furl=furl, fkw=fkw, fr=fr):
+                    try:
+                        resp = await st["session"].request("GET", furl, **fkw)
+                    except BaseException as e:
+                        fr["exc"] = e
+                        return
+                    fr["final"] = (resp.status, resp.headers.get("X-Hop"))
+                    fr["history"] = [(h.status, h.headers.get("X-Hop")) for h in resp.history]
+                    try:
+                        await resp.read()
+                    except BaseException as e:
+                        fr["exc"] = e
+                    resp.release()
+
+                loop.note("later_call", str(i))
+                t1 = loop.create_task(later(), name=f"later{i}")
+                loop.run_sim(t1, vt_cap=loop.time() + 60.0, step_cap=loop.steps + 30_000)
+                if not t1.done():
+                    fr["blocked"] = True
+                    t1.cancel()
+                loop.run_sim(None, vt_cap=loop.time() + 1.0, step_cap=loop.steps + 20_000)
+                if t1.done() and not t1.cancelled() and t1.exception() is not None:
+                    raise t1.exception()  # harness error
+                if fr["blocked"]:
+                    break
 
         # ------------------------------------------------------------- judge
         fired = {k: v for k, v in loop.faults.items() if k.startswith(("origin_", "cancel_"))}
@@ -1096,6 +1246,119 @@ def run(scn, ch, log=False):
             violate("released", "connector_acquired_at_quiescence:" + outcome.split(":")[0],
                     f"white-box: TCPConnector._acquired has {acquired} entries at quiescence after outcome {outcome}; "
                     f"{len(recs)} requests; {init_desc}")
+        # --- later calls on the same session.  Each is a chain of its own: what the caller supplied for an
+        # earlier call (its headers=, cookies=, URL credentials, credentials a Location carried) was supplied
+        # for that call's origin and may not reach another origin now; session-level default headers are
+        # supplied anew with every call, for the origin that call is addressed to.
+        def b64(u, pw):
+            return "Basic " + base64.b64encode(f"{u}:{pw}".encode()).decode()
+
+        earlier = {}  # token -> (kind, name of the origin it was supplied for)
+        if not via_session:
+            for tok in (T_AUTH, T_HC[0], T_HC[1], T_PA):
+                earlier[tok] = (TOKEN_KIND[tok], home)
+        earlier[T_RC] = (TOKEN_KIND[T_RC], home)
+        earlier[T_PW] = (TOKEN_KIND[T_PW], home)
+        for j in range(len(hops) - 1):
+            if hops[j]["loc"] == "userinfo":
+                for tok in _loc_cred(j):
+                    earlier[tok] = ("location_credentials", hops[j + 1]["o"])
+        defaults = (T_AUTH, T_HC[0], T_HC[1], T_PA) if via_session else ()
+        for i, fr in enumerate(fu_res):
+            fu = fus[i]
+            red = fu["red"]
+            chain = [fu["o"]] + ([red["to"]] if red else [])
+            first_t = _origin_t(fu["o"])
+            frecs = [r for r in origins.flog if r["call"] == i]
+            fdesc = (f"later call {i} on the same session: GET {fu['o']} /f{i} headers={fu['hdr']} "
+                     f"url_credentials={fu['url_creds']} answered {str(red['status']) + ' Location ' + _fu_loc(fu, i) if red else 200}; "
+                     f"session default headers={sorted(headers) if via_session else None}; first call: {init_desc}")
+            for n, r in enumerate(frecs):
+                pos = r["pos"]
+                if n != pos or pos >= len(chain):
+                    violate("request_count", "later_call_unexpected_request",
+                            f"requests received {[(x['origin'], x['target']) for x in frecs]}; {fdesc}")
+                    continue
+                if r["origin"] != chain[pos]:
+                    violate("target_resolution", "wrong_origin:later_call",
+                            f"{r['target']} expected at {chain[pos]} arrived at {r['origin']}; {fdesc}")
+                here_t = _origin_t(r["origin"])
+                confined = all(_origin_t(o) == first_t for o in chain[:pos + 1])
+                hay = _haystack(r)
+                for tok in sorted(earlier):
+                    kind, org = earlier[tok]
+                    if tok in hay and _origin_t(org) != here_t:
+                        violate("secret_confinement", f"{kind}:later_call:{R.relation(_origin_t(org), here_t)}",
+                                f"{tok} ({kind}), supplied for {org} in an earlier call, was sent to {r['origin']} "
+                                f"({r['method']} {r['target']}); headers={r['headers']}; {fdesc}")
+                own = [(t, TOKEN_KIND[t]) for t in defaults] + [(t, "url_credentials") for t in _fu_cred(i) if fu["url_creds"]]
+                for tok, kind in own:
+                    if tok in hay and not confined:
+                        violate("secret_confinement", f"{kind}:{R.relation(first_t, here_t)}",
+                                f"{tok} ({kind}) supplied for {fu['o']} was sent to {r['origin']} after the redirect; "
+                                f"headers={r['headers']}; {fdesc}")
+                # whose Authorization
+                if fu["url_creds"]:
+                    a0 = [b64(*_fu_cred(i))]
+                elif via_session and init["auth_header"]:
+                    a0 = ["Bearer " + T_AUTH]
+                else:
+                    a0 = []
+                if pos and red["loc"] == "userinfo":
+                    want_auth = [b64(*_fu_loc_cred(i))]
+                else:
+                    want_auth = a0 if confined else []
+                auth = _hget(r, "authorization")
+                if want_auth and not auth:
+                    violate("same_origin_resend", "authorization_lost:later_call",
+                            f"{r['target']} at {r['origin']} lacks the Authorization {want_auth} that applies to it; "
+                            f"headers={r['headers']}; {fdesc}")
+                elif want_auth and auth != want_auth:
+                    violate("credential_sources", "authorization_not_superseded:later_call",
+                            f"{r['target']} at {r['origin']} Authorization {auth}, expected {want_auth}; {fdesc}")
+                got, ncookie_hdrs = _cookie_pairs(r["headers"])
+                if via_session and confined:
+                    lost = []
+                    if init["cookie_header"] and not (got.get("hc1") == T_HC[0] and got.get("hc2") == T_HC[1]):
+                        lost.append("cookie_header")
+                    if init["proxy_auth"] and _hget(r, "proxy-authorization") != ["Basic " + T_PA]:
+                        lost.append("proxy_authorization")
+                    for what in lost:
+                        violate("same_origin_resend", f"{what}_lost:later_call",
+                                f"{r['target']} at {r['origin']} lacks the session's default {what}; "
+                                f"headers={r['headers']}; {fdesc}")
+                got_jar = {k: v for k, v in got.items() if k not in CALLER_COOKIE_NAMES}
+                if got_jar != r["jar"]:
+                    missing = sorted(set(r["jar"]) - set(got_jar))
+                    extra = sorted(set(got_jar) - set(r["jar"]))
+                    cls = "missing" if missing else "extra" if extra else "value"
+                    violate("jar_reselection", f"{cls}:later_call",
+                            f"{r['target']} at {r['origin']}: Cookie header carries {got_jar}, the jar selects {r['jar']} "
+                            f"for that URL; {fdesc}")
+                if ncookie_hdrs > 1:
+                    violate("jar_reselection", "several_cookie_headers", f"{r['target']} has {ncookie_hdrs} Cookie header lines; {fdesc}")
+            if fr["blocked"]:
+                violate("terminates", "later_call_blocked", f"the call did not complete; {len(frecs)} requests received; {fdesc}")
+            else:
+                oc = _classify(fr["exc"], fr["final"] is not None)
+                if oc != "response":
+                    violate("outcome", f"later_call:response->{oc}", f"got {oc} ({fr['exc']!r}); {fdesc}")
+                else:
+                    want_final = (200, f"g{i}" if red else f"f{i}")
+                    want_hist = [(red["status"], f"f{i}")] if red else []
+                    if fr["final"] != want_final or fr["history"] != want_hist:
+                        violate("history", "later_call_history",
+                                f"final {fr['final']} history {fr['history']}, expected {want_final} {want_hist}; {fdesc}")
+                    if len(frecs) != len(chain):
+                        violate("request_count", "later_call_request_count",
+                                f"{len(frecs)} requests received, expected {len(chain)}; {fdesc}")
+            if fu["url_creds"]:
+                for tok in _fu_cred(i):
+                    earlier[tok] = ("url_credentials", fu["o"])
+            if red and red["loc"] == "userinfo":
+                for tok in _fu_loc_cred(i):
+                    earlier[tok] = ("location_credentials", red["to"])
+
         for c in loop.exc_contexts:
             violate("loop_exception", f"{c['exc_type']}@{c.get('frame')}",
                     f"exception reached the event loop: {c['message']} {c['exc']} frame={c.get('frame')}; {init_desc}")
@@ -1130,6 +1393,14 @@ def run(scn, ch, log=False):
             "retry_seen": int(any(r["attempt"] > 0 for r in recs)),
             "cancel_fired": int(bool(loop.faults.get("cancel_caller"))),
             "secret_dropped": int(any_secret and changes > 0),
+            "later_call": int(bool(fu_res)), "later_calls_2plus": int(len(fu_res) >= 2),
+            "later_call_to_other_origin": int(any(_origin_t(fus[i]["o"]) != home_t for i in range(len(fu_res)))),
+            "later_call_redirected": int(any(fus[i]["red"] for i in range(len(fu_res)))),
+            "later_call_after_url_or_location_credentials": int(bool(fu_res) and (
+                init["url_creds"] or any(hops[j]["loc"] == "userinfo" for j in range(max(0, len(trav) - 1))))),
+            "later_call_with_session_defaults_after_origin_change": int(bool(fu_res) and via_session and changes > 0
+                                                                        and any(headers)),
+            "later_call_skipped_first_call_blocked_or_leaked": int(bool(fus) and not fu_res),
         }
         for s in sorted({hops[j]["status"] for j in range(max(0, len(trav) - 1))}):
             probes[f"followed_{s}"] = 1
